@@ -21,11 +21,12 @@ using FSM = M::Root<R, A, B>;
 #endif
 static std::vector<std::string> tr;
 static void t(const std::string& s) { tr.push_back(s); }
+static std::string veto;      // the guard callback (e.g. "I2.entryGuard") that cancels the pending transition, if any
 #define CB(N) \
-	void entryGuard(GuardControl&) { t(N ".entryGuard"); } void enter(PlanControl&) { t(N ".enter"); } void reenter(PlanControl&) { t(N ".reenter"); } \
+	void entryGuard(GuardControl& c) { t(N ".entryGuard"); if (veto == N ".entryGuard") c.cancelPendingTransition(); } void enter(PlanControl&) { t(N ".enter"); } void reenter(PlanControl&) { t(N ".reenter"); } \
 	void preUpdate(FullControl&) { t(N ".preUpdate"); } void update(FullControl&) { t(N ".update"); } void postUpdate(FullControl&) { t(N ".postUpdate"); } \
 	void preReact(const Ev&, FullControl&) { t(N ".preReact"); } void react(const Ev&, FullControl&) { t(N ".react"); } void postReact(const Ev&, FullControl& c) { t(N ".postReact"); (void) c; } \
-	void exitGuard(GuardControl&) { t(N ".exitGuard"); } void exit(PlanControl&) { t(N ".exit"); }
+	void exitGuard(GuardControl& c) { t(N ".exitGuard"); if (veto == N ".exitGuard") c.cancelPendingTransition(); } void exit(PlanControl&) { t(N ".exit"); }
 struct I1 : FSM::State { CB("I1") }; struct I2 : FSM::State { CB("I2") }; struct I3 : FSM::State { CB("I3") };
 #ifndef PEER
 struct R : FSM::State { void planSucceeded(FullControl&) { t("R.planSucceeded"); } void planFailed(FullControl&) { t("R.planFailed"); } };
@@ -79,6 +80,18 @@ int main() {
 			tr.clear(); m.immediateChangeTo<A>(); if (order("reenter", true) || logs_faithful(withLogger)) return 1;
 			tr.clear(); m.immediateChangeTo<B>(); if (order("exit", false) || logs_faithful(withLogger)) return 1;
 			if (withLogger && pos("LOGT:-1>1") < 0) return fail("changeTo produced no transition record with the caller as origin");
+			// C02 / C03: a veto from any guard of the destination -- the state's own or an injected one -- leaves the machine where it is
+			for (const char* g : {"I1.entryGuard", "I2.entryGuard", "I3.entryGuard", "A.entryGuard"}) {
+				tr.clear(); veto = g; m.immediateChangeTo<A>(); veto.clear();
+				if (m.activeStateId() != 1 || pos("A.enter") >= 0) return fail(std::string("transition to A applied although ") + g + " cancelled it");
+				if (withLogger && pos("LOGC:0") < 0) return fail(std::string("no cancellation record for the veto of ") + g);
+			}
+			m.immediateChangeTo<A>();
+			for (const char* g : {"I1.exitGuard", "I2.exitGuard", "I3.exitGuard", "A.exitGuard"}) {
+				tr.clear(); veto = g; m.immediateChangeTo<B>(); veto.clear();
+				if (m.activeStateId() != 0 || pos("A.exit") >= 0) return fail(std::string("transition away from A applied although ") + g + " cancelled it");
+			}
+			m.immediateChangeTo<B>();
 #ifndef PEER
 			tr.clear(); m.plan().change<B, A>(); m.update();
 			if (withLogger && (pos("LOGT:1>0") < 0 || pos("LOGS:1:1") < 0)) return fail("changeTo / fail from a callback not recorded");
